@@ -28,9 +28,91 @@ let run_buf d =
   done with End_of_file -> ());
   print_string (Buffer.contents out)
 
+(* ---- UTF-8 decoding of the input bytes into scalar values *)
+let decode_utf8 (b : Stdlib.String.t) : n list =
+  let n = String.length b in
+  let rec go i acc =
+    if i >= n then List.rev acc
+    else
+      let c = Char.code b.[i] in
+      if c < 0x80 then go (i+1) (n_of_int c :: acc)
+      else if c < 0xE0 then go (i+2) (n_of_int (((c land 0x1F) lsl 6) lor (Char.code b.[i+1] land 0x3F)) :: acc)
+      else if c < 0xF0 then go (i+3) (n_of_int (((c land 0x0F) lsl 12) lor ((Char.code b.[i+1] land 0x3F) lsl 6) lor (Char.code b.[i+2] land 0x3F)) :: acc)
+      else go (i+4) (n_of_int (((c land 0x07) lsl 18) lor ((Char.code b.[i+1] land 0x3F) lsl 12) lor ((Char.code b.[i+2] land 0x3F) lsl 6) lor (Char.code b.[i+3] land 0x3F)) :: acc)
+  in go 0 []
+
+let string_of_hex h =
+  let n = String.length h / 2 in
+  String.init n (fun i -> Char.chr (int_of_string ("0x" ^ String.sub h (2*i) 2)))
+
+let cstr l = string_of_coq_string l
+
+(* Rust's {:?} of LexerMode *)
+let mode_str (m : mode) : Stdlib.String.t =
+  let b x = if x then "true" else "false" in
+  match m with
+  | MDefault -> "Default"
+  | MStringExpr a -> Printf.sprintf "StringExpr { allow_stat: %s }" (b a)
+  | MMakeCheckpoint -> "MakeCheckpoint"
+  | MWsOrCStyleCommentOnly -> "WsOrCStyleCommentOnly"
+  | MExpectSymbol (t, c) -> Printf.sprintf "ExpectSymbol(%s, %s)" (cstr (tt_name t)) (cstr (ch_name c))
+  | MExpectSemiOrEOF -> "ExpectSemiOrEOF"
+  | MMaybeMacroCallArgsOrLabel l -> Printf.sprintf "MaybeMacroCallArgsOrLabel { check_macro_label: %s }" (b l)
+  | MMaybeMacroCallArgAssign f -> Printf.sprintf "MaybeMacroCallArgAssign { flags: MacroArgNameValueFlags(%s) }" (n_to_string f)
+  | MMacroCallArgOrValue f -> Printf.sprintf "MacroCallArgOrValue { flags: MacroArgNameValueFlags(%s) }" (n_to_string f)
+  | MMaybeMacroDefArgs -> "MaybeMacroDefArgs"
+  | MMacroDefArg -> "MacroDefArg"
+  | MMacroDefNextArgOrDefaultValue -> "MacroDefNextArgOrDefaultValue"
+  | MMacroDefName -> "MacroDefName"
+  | MMacroCallValue (f, p) -> Printf.sprintf "MacroCallValue { flags: MacroArgNameValueFlags(%s), pnl: %s }" (n_to_string f) (n_to_string p)
+  | MMaybeTailMacroArgValue -> "MaybeTailMacroArgValue"
+  | MMacroStrQuotedExpr (m, p) -> Printf.sprintf "MacroStrQuotedExpr { mask_macro: %s, pnl: %s }" (b m) (n_to_string p)
+  | MMacroEval (f, p) -> Printf.sprintf "MacroEval { macro_eval_flags: MacroEvalExprFlags(%s), pnl: %s }" (n_to_string f) (n_to_string p)
+  | MMacroDo -> "MacroDo"
+  | MMacroLocalGlobal l -> Printf.sprintf "MacroLocalGlobal { is_local: %s }" (b l)
+  | MMacroNameExpr (f, e) ->
+    Printf.sprintf "MacroNameExpr(%s, %s)" (b f) (match e with None -> "None" | Some k -> "Some(" ^ cstr (ek_name k) ^ ")")
+  | MMacroSemiTerminatedTextExpr -> "MacroSemiTerminatedTextExpr"
+  | MMacroStatOptionsTextExpr -> "MacroStatOptionsTextExpr"
+
+let modes_str (l : mode list) = "[" ^ String.concat ", " (List.rev_map mode_str l) ^ "]"
+
+let run_lex d sep with_acc =
+  let out = Buffer.create (1 lsl 20) in
+  let i = ref 0 in
+  (try while true do
+    let line = String.trim (input_line stdin) in
+    let bytes = string_of_hex line in
+    Printf.bprintf out "CASE %d %s\n" !i line;
+    incr i;
+    let src = decode_utf8 bytes in
+    let r = lex { dbg = d; msep = sep } src in
+    (match r.lr_outcome with
+     | Some site -> Printf.bprintf out "OUT panic %s\n" (n_to_string site)
+     | None ->
+       let s = r.lr_state in
+       Printf.bprintf out "OUT %s iters=%s\n" (if s.s_aborted then "aborted" else "ok") (n_to_string s.s_iters);
+       let e = r.lr_end in
+       Printf.bprintf out "END modes=%s mnl=%s ps=%s cp=%d\n" (modes_str e.s_modes) (n_to_string e.s_mnl)
+         (String.concat "" (List.rev_map (fun x -> if x then "1" else "0") e.s_pstat))
+         (match e.s_cp with Some _ -> 1 | None -> 0);
+       dump_buffer out d r.lr_buffer with_acc;
+       List.iter (fun (e : err_info) ->
+         Printf.bprintf out "E %s %s %s %s %s %s\n" (n_to_string (ek_code e.e_kind)) (n_to_string e.e_byte)
+           (n_to_string e.e_char) (n_to_string e.e_line) (n_to_string e.e_col)
+           (match e.e_last with None -> "-" | Some t -> n_to_string t)) r.lr_errors;
+       let g = s.s_ghost in
+       Printf.bprintf out "G lines_ok=%b debt=%b err_ok=%b rollbacks=%s maxmodes=%s wf=%b\n" g.g_lines_ok g.g_line_debt
+         g.g_err_ok (n_to_string g.g_rollbacks) (n_to_string g.g_max_modes) (wfbuf_b r.lr_buffer));
+    if Buffer.length out > (1 lsl 19) then (print_string (Buffer.contents out); Buffer.clear out)
+  done with End_of_file -> ());
+  print_string (Buffer.contents out)
+
 let () =
   let mode = if Array.length Sys.argv > 1 then Sys.argv.(1) else "" in
   let d = not (Array.length Sys.argv > 2 && Sys.argv.(2) = "release") in
   match mode with
   | "buf" -> run_buf d
+  | "lex" -> run_lex d (Array.length Sys.argv > 3 && Sys.argv.(3) = "sep") false
+  | "lexa" -> run_lex d (Array.length Sys.argv > 3 && Sys.argv.(3) = "sep") true
   | _ -> prerr_endline "usage: modelrun buf|lex|lexa [debug|release] [sep]"; exit 2
